@@ -75,8 +75,36 @@ def expected_token(variant, include_sign, pre, r, start, end):
     raise ValueError(variant)
 
 
+DEFAULT_START, DEFAULT_END = 0, 2147483647        # documented defaults of the Integer family
+
+
+def check_defaults(case, ctx):
+    """Arguments left out must behave exactly like the documented defaults (start=0, end=2147483647)."""
+    import pregex.meta.essentials as es
+    variant, kw = case['variant'], dict(case['kw'])
+    p = getattr(es, variant)(**kw)
+    start, end = kw.get('start', DEFAULT_START), kw.get('end', DEFAULT_END)
+    acc = rej = 0
+    for r in case['numerals']:
+        if variant in ('PositiveInteger', 'NegativeInteger') and r.strip('0') == '':
+            continue
+        tok = ('-' if variant == 'NegativeInteger' else '') + r
+        want = valid(r, start, end)
+        got = p.is_exact_match(tok)
+        acc += want
+        rej += not want
+        if got != want:
+            violation('defaults', case, f"{variant}({', '.join(f'{k}={v}' for k, v in kw.items())}).is_exact_match({tok!r}) = {got}; with the "
+                      f'documented defaults (start={start}, end={end}) the model says {want}', ctx)
+            break
+    ctx.count('mode:defaults')
+    ctx.case(case, acc > 0 and rej > 0, sample={'call': f'{variant}({kw})', 'numerals': case['numerals'][:6]})
+
+
 def check_case(case, ctx):
     mode = case['mode']
+    if mode == 'defaults':
+        return check_defaults(case, ctx)
     start, end = case['start'], case['end']
     if mode == 'exact':
         p = make('Integer', start, end, False, False)
@@ -153,14 +181,29 @@ def numeral_near(start, end):
         base, d, zeros, tail = t
         v = max(0, base + d)
         return '0' * zeros + str(v) + tail
-    return st.tuples(st.sampled_from([start, end, (start + end) // 2, 0, 10 ** len(str(end))]), st.integers(-2, 2),
+    near = st.tuples(st.sampled_from([start, end, (start + end) // 2, 0, 10 ** len(str(end))]), st.integers(-2, 2),
                      st.sampled_from([0, 0, 0, 1, 2]), st.sampled_from(['', '', '', '', '0', '9'])).map(mk)
+    # any length up to one digit more than `end`, with or without leading zeros
+    anylen = st.tuples(st.integers(1, len(str(end)) + 1), st.integers(0, 10 ** 6), st.sampled_from([0, 0, 1, 2])).map(
+        lambda t: ('0' * t[2] + str(t[1] * 982451653 + 7))[:t[0]] or '0')
+    return st.one_of(near, near, near, anylen)
 
 
 @st.composite
 def gen_case(draw):
     start, end = draw(bounds_strategy())
-    mode = draw(st.sampled_from(['tokens', 'tokens', 'tokens', 'ext', 'exact']))
+    mode = draw(st.sampled_from(['tokens', 'tokens', 'tokens', 'ext', 'exact', 'defaults']))
+    if mode == 'defaults':
+        variant = draw(st.sampled_from(['Integer', 'PositiveInteger', 'NegativeInteger', 'UnsignedInteger']))
+        kw = draw(st.one_of(st.just({}), st.integers(0, 10 ** 9).map(lambda v: {'start': v}), st.integers(0, 10 ** 10).map(lambda v: {'end': v})))
+        s0, e0 = kw.get('start', DEFAULT_START), kw.get('end', DEFAULT_END)
+        if s0 > e0:
+            kw = {}
+            s0, e0 = DEFAULT_START, DEFAULT_END
+        around = st.one_of(numeral_near(s0, e0), st.sampled_from([2 ** 30, 2 ** 30 + 1, 2 ** 31 - 2, 2 ** 31 - 1, 2 ** 31, 2 ** 32 - 1, 2 ** 32, 10 ** 9, 1500000000,
+                                                                       2147483646, 2147483647, 2147483648, 999999999, 3000000000]).map(str),
+                           st.integers(0, 2 ** 33).map(str))
+        return {'mode': 'defaults', 'variant': variant, 'kw': kw, 'numerals': draw(st.lists(around, min_size=4, max_size=12))}
     num = numeral_near(start, end)
     if mode == 'exact':
         return {'mode': 'exact', 'start': start, 'end': end, 'numerals': draw(st.lists(num, min_size=3, max_size=12))}
